@@ -235,7 +235,7 @@ pub fn run(tier: &Tier, _args: &[String]) -> i32 {
     let mut out = Outcome::new("C13", tier, "model_checking");
     out.assumptions = vec![
         "roles are the forms the configuration can express - a permission set, optionally restricted to a list of CAs (then the grant holds for the listed CAs only and for non-CA requests) - and roles with a blanket grant plus a differing per-CA grant (narrower, wider, empty), which only the role type can express (Role::complex, put into the role map directly); enumerated: full, none, login, for every permission P: all-but-P, only-P, login+P, login+ca-read+P, login+pub-admin+P, each also scoped to a CA; thorough adds scoping to the other CA, to both CAs and to a list with an unknown CA, and every pair of permissions on top of login (blanket and scoped to the other CA)".into(),
-        "callers: no credentials, wrong bearer token, the admin token, an unmapped system user, and a system user mapped to each role (the Unix-socket path: the daemon's own provider chain reads the peer user from the request extensions, as the socket listener sets it)".into(),
+        "callers: no credentials, a wrong bearer token and three near misses of the admin token (prefix, extension, other case), the admin token, an unmapped system user, and a system user mapped to each role (the Unix-socket path: the daemon's own provider chain reads the peer user from the request extensions, as the socket listener sets it)".into(),
         "served = any status other than 401/403; the reference for the required permissions is the route table in harness/src/routes.rs, transcribed from src/daemon/http/dispatch".into(),
     ];
     // conformance of the route table with the dispatch code: every path
@@ -299,6 +299,11 @@ pub fn run(tier: &Tier, _args: &[String]) -> i32 {
             let mut callers: Vec<(String, Option<&RoleDef>, bool, Call)> = vec![
                 ("anonymous".into(), None, false, Call::default()),
                 ("wrong-token".into(), None, false, Call { bearer: Some("wrong".into()), ..Default::default() }),
+                // near misses of the admin token ("secret"): a proper prefix,
+                // an extension, another case
+                ("token-prefix".into(), None, false, Call { bearer: Some("secre".into()), ..Default::default() }),
+                ("token-extended".into(), None, false, Call { bearer: Some("secret1".into()), ..Default::default() }),
+                ("token-other-case".into(), None, false, Call { bearer: Some("Secret".into()), ..Default::default() }),
                 ("admin-token".into(), None, true, Call { bearer: Some("secret".into()), ..Default::default() }),
                 ("unmapped-user".into(), None, false, Call { unix_user: Some("stranger".into()), ..Default::default() }),
             ];
